@@ -1090,9 +1090,10 @@ impl Formatter {
             self.writer.write(" if ");
             self.format_expr(&guard.node);
         }
-        self.writer.write(" => ");
+        self.writer.write(" =>");
         match &arm.body {
             MatchBody::Expr(expr) => {
+                self.writer.write(" ");
                 self.format_expr(&expr.node);
                 self.writer.newline();
             }
